@@ -16,7 +16,7 @@ package main
 //   c05.bchain <kind> <cap> <order> <batch size> <workers> <k>… : the same runs with an output built on the REAL
 //        pipeline.Batcher (OutFn walks the batch with Batch.ForEach, the batcher commits every event of it)
 //   c05.chain <kind> <cap> <order> <k>…   one processor, one stream, TWO actions: order 0 = [dropper, holder],
-//        order 1 = [holder, dropper]; the dropper discards events of kind q, the holder is the action of
+//        order 1 = [holder, dropper], order 2 = [pass, dropper, holder], order 3 = [pass, pass, dropper, holder]; the dropper discards events of kind q, the holder is the action of
 //        c05.pipe. A held event followed by a q (consumed by the other, non-busy action) and then silence has
 //        to be flushed by the stream time-out; same result format and idle oracle as c05.pipe.
 
@@ -240,7 +240,12 @@ type pipeDrop struct{}
 func (a *pipeDrop) Start(_ pipeline.AnyConfig, _ *pipeline.ActionPluginParams) {}
 func (a *pipeDrop) Stop()                                                        {}
 func (a *pipeDrop) Do(e *pipeline.Event) pipeline.ActionResult {
-	if e.IsTimeoutKind() || e.IsChildKind() {
+	if e.IsTimeoutKind() {
+		// like the discard action: whatever it is given it discards. A stream time-out is addressed to the
+		// action that holds an event; if the processor hands it to this one it is gone.
+		return pipeline.ActionDiscard
+	}
+	if e.IsChildKind() {
 		return pipeline.ActionPass
 	}
 	if n := e.Root.Dig("k"); n != nil && n.AsString() == "q" {
@@ -248,6 +253,13 @@ func (a *pipeDrop) Do(e *pipeline.Event) pipeline.ActionResult {
 	}
 	return pipeline.ActionPass
 }
+
+// pipePass: passes everything (never busy).
+type pipePass struct{}
+
+func (a *pipePass) Start(_ pipeline.AnyConfig, _ *pipeline.ActionPluginParams) {}
+func (a *pipePass) Stop()                                                        {}
+func (a *pipePass) Do(*pipeline.Event) pipeline.ActionResult                     { return pipeline.ActionPass }
 
 var pipeSeq atomic.Int64
 
@@ -331,15 +343,31 @@ func execPipeChainB(t *hx.Toks, chain, batched bool) string {
 		},
 		MatchMode: pipeline.MatchModeAnd,
 	}
+	passer := func() *pipeline.ActionPluginStaticInfo {
+		return &pipeline.ActionPluginStaticInfo{
+			PluginStaticInfo: &pipeline.PluginStaticInfo{
+				Type:    "verif_pass",
+				Factory: func() (pipeline.AnyPlugin, pipeline.AnyConfig) { return &pipePass{}, nil },
+			},
+			MatchMode: pipeline.MatchModeAnd,
+		}
+	}
 	switch {
 	case !chain:
 		p.AddAction(holder)
 	case order == 0:
 		p.AddAction(dropper)
 		p.AddAction(holder)
-	default:
+	case order == 1:
 		p.AddAction(holder)
 		p.AddAction(dropper)
+	default:
+		// order 2 / 3: one / two pass-through actions in front: the discarding action sits at index >= 1
+		for i := 0; i < order-1; i++ {
+			p.AddAction(passer())
+		}
+		p.AddAction(dropper)
+		p.AddAction(holder)
 	}
 
 	var mu sync.Mutex
@@ -506,8 +534,11 @@ func genC05(w *bufio.Writer, rng *hx.Rng, tier string) {
 		nchain = 120
 	}
 	for _, k := range []string{"lowmem", "std"} {
-		for order := 0; order <= 1; order++ {
+		for order := 0; order <= 3; order++ {
 			for ci, f := range chains {
+				if tier != "thorough" && order >= 2 && ci >= 2 {
+					continue // quick: the two shortest chains for the longer action chains
+				}
 				if tier != "thorough" && ci >= 4 && (ci+order)%2 == 1 {
 					continue // quick: the first four always, half of the rest (each waits for a stream time-out)
 				}
@@ -521,7 +552,7 @@ func genC05(w *bufio.Writer, rng *hx.Rng, tier string) {
 		for j := rng.Range(2, 14); j > 0; j-- {
 			ks = append(ks, calpha[rng.Intn(len(calpha))])
 		}
-		fmt.Fprintf(w, "c05.chain %s %d %d %s\n", []string{"lowmem", "std"}[rng.Intn(2)], rng.Range(1, 6), rng.Intn(2), strings.Join(ks, " "))
+		fmt.Fprintf(w, "c05.chain %s %d %d %s\n", []string{"lowmem", "std"}[rng.Intn(2)], rng.Range(1, 6), rng.Intn(4), strings.Join(ks, " "))
 	}
 	// the same kinds through an output built on the real Batcher (batch size 1..4, 1..2 workers)
 	bfixed := []string{"s", "p", "s s s s s p", "h s p", "s h s d s x s r s p", "p p p p p", "h p", "s s"}
@@ -531,6 +562,8 @@ func genC05(w *bufio.Writer, rng *hx.Rng, tier string) {
 		}
 		fmt.Fprintf(w, "c05.bchain %s 2 0 2 1 h q s\n", k)
 		fmt.Fprintf(w, "c05.bchain %s 3 1 1 2 s h q s s s p\n", k)
+		fmt.Fprintf(w, "c05.bchain %s 2 2 2 1 h q\n", k)
+		fmt.Fprintf(w, "c05.bchain %s 2 3 1 1 h q p\n", k)
 	}
 	nb := 12
 	if tier == "thorough" {
